@@ -1,6 +1,7 @@
 import Driver.Loop
 import Midgard.Model.TimeScale
 import Midgard.Generated.TimeScaleTables
+import Midgard.Generated.SourceTimeFlow
 
 /-! Driver for C01: the time-scale model instantiated at the regenerated tables. -/
 namespace Driver.C01
@@ -13,6 +14,11 @@ def parseScale? : String → Option Scale
 
 def showScale : Scale → String
   | .utc => "utc" | .tai => "tai" | .gps => "gps" | .tt => "tt" | .tcg => "tcg"
+
+def parseHop? (s : String) : Option Hop :=
+  match s.splitOn ">" with
+  | [x, y] => do let x ← parseScale? x; let y ← parseScale? y; pure (x, y)
+  | _ => none
 
 def showJD (j : JD) : String := s!"{showRat j.jd1} {showRat j.jd2}"
 
@@ -34,6 +40,30 @@ def handle : List String → Option String
     if s = "utc" then pure (toString (startedUtc taiutc consts.tol ⟨j1, j2⟩ - 1))
     else if s = "tai" then pure (toString (startedTai taiutc consts.tol ⟨j1, j2⟩ - 1))
     else none
+  | ["c01", "rowsrc", s, j1, j2] => do
+    -- the same index by the regenerated transcription of `_taiutc_idx` and its call site in `delta_tai_utc`
+    let j1 ← parseRat? j1; let j2 ← parseRat? j2
+    let cols := taiutc.map (fun r => (r.start, r.offset, r.refMjd, r.rate))
+    if s = "utc" then pure (toString (Midgard.Generated.SrcFlow.rowIndexOfUtcSrc cols consts.tol (1 / secPerDay) j1 j2))
+    else if s = "tai" then pure (toString (Midgard.Generated.SrcFlow.rowIndexOfTaiSrc cols consts.tol (1 / secPerDay) j1 j2))
+    else none
+  | ["c01", "search", which, graph, a, b] => do
+    -- `_find_conversion_hops` on an arbitrary registry `graph` = "x>y,x>y,…" (registration order); which = model | src
+    let a ← parseScale? a; let b ← parseScale? b
+    let g ← (if graph = "-" then some [] else (graph.splitOn ",").mapM parseHop?)
+    let r := if which = "src" then Midgard.Generated.SrcFlow.findHopsSrc g a b 64
+             else if a = b then some [(a, b)] else bfs g b 64 [(a, [])] []
+    match r with
+    | some r => pure (showList (fun h : Hop => s!"{showScale h.1}>{showScale h.2}") r)
+    | none => pure "none"
+  | ["c01", "toscale", graph, a, b] => do
+    -- the route `to_scale` takes on an arbitrary registry: model `route` and regenerated `toScaleRouteSrc`
+    let a ← parseScale? a; let b ← parseScale? b
+    let g ← (if graph = "-" then some [] else (graph.splitOn ",").mapM parseHop?)
+    let sh := fun (r : Option (List Hop)) => match r with
+      | some r => showList (fun h : Hop => s!"{showScale h.1}>{showScale h.2}") r
+      | none => "none"
+    pure s!"{sh (route g a b)} {sh (Midgard.Generated.SrcFlow.toScaleRouteSrc g a b 64)}"
   | _ => none
 
 end Driver.C01
